@@ -455,3 +455,18 @@ def mech_spurious(o, p, header=None):
                 if p in aa or (p[1:] in aa and len(p) > 3) or p.replace('U', '*') in aa:
                     return 'KF-NESTED'
     return None
+
+
+def ctx_attributable(case, peptides):
+    """KF-CTX attribution for relational monitors (outputs of two runs of one input differ): every differing peptide is
+    context-affected - demanded only while context-dependent cleavage sites are trusted, or realizable only when they are optional."""
+    try:
+        o = cv.oracle_sets(case)
+        if not o['lim'].has_context() or not peptides:
+            return False
+        o_r = cv.oracle_sets(case, lim=o['lim'].mixed_copy('robust'))
+        o_m = cv.oracle_sets(case, lim=o['lim'].mixed_copy('mixed'))
+    except OverflowError:
+        return False
+    return all((p in o_m['may'] and p not in o_r['must'] and (p in o['must'] or p not in o['may'])) or
+               (p not in o_r['may'] and p in o_m['may']) for p in peptides)
